@@ -1182,3 +1182,98 @@ Proof.
   unfold interp_call. rewrite Hm, Hmm. cbn [mesh1_raises var andb schemes_of]. rewrite Hd.
   unfold run. cbn [schemes_of]. unfold ss, cvs, mesh. rewrite peraxis_mesh_pointwise. reflexivity.
 Qed.
+
+(* ------------------------------------------------------------------ *)
+(* the complete textbook reference, for EVERY real evaluation point (the Coq counterpart of the
+   probes' Python reference): nearest axes read the closest node (rightmost on ties), linear
+   axes blend the cell found by an independent search (largest i <= n-2 with c_i <= x) inside
+   the hull and decay linearly from the edge value outside                    *)
+Fixpoint ssle (c : list R) (x : R) : nat :=
+  match c with
+  | [] => O
+  | a :: c' => if Rleb a x then S (ssle c' x) else O
+  end.
+Definition ref_cell (c : list R) (x : R) : nat := Nat.min (Nat.pred (ssle c x)) (length c - 2).
+
+Lemma ssle_le (c : list R) x : (ssle c x <= length c)%nat.
+Proof. induction c as [|a c IH]; cbn [ssle length]; [lia|]. destruct (Rleb a x); lia. Qed.
+Lemma ssle_below (c : list R) x j : (j < ssle c x)%nat -> nth j c 0 <= x.
+Proof.
+  revert j; induction c as [|a c IH]; intros j Hj; cbn [ssle] in Hj; [lia|].
+  destruct (Rleb_spec a x) as [Hle|]; [|lia]. destruct j; cbn [nth]; [exact Hle | apply IH; lia].
+Qed.
+Lemma ssle_at (c : list R) x : (ssle c x < length c)%nat -> x < nth (ssle c x) c 0.
+Proof.
+  induction c as [|a c IH]; cbn [ssle length]; [lia|].
+  destruct (Rleb_spec a x) as [Hle|Hgt]; intros Hk; cbn [nth]; [apply IH; lia | lra].
+Qed.
+
+Lemma ref_cell_contains (c : list R) x : (2 <= length c)%nat ->
+  nth 0 c 0 <= x <= nth (length c - 1) c 0 ->
+  (S (ref_cell c x) < length c)%nat /\ nth (ref_cell c x) c 0 <= x <= nth (S (ref_cell c x)) c 0.
+Proof.
+  intros Hn [Hlo Hhi]. unfold ref_cell. pose proof (ssle_le c x) as Hk.
+  assert (H1 : (1 <= ssle c x)%nat).
+  { destruct c as [|a c]; [cbn in Hn; lia|]. cbn [ssle nth] in *. destruct (Rleb_spec a x); [lia|lra]. }
+  split; [lia|]. destruct (Nat.eq_dec (ssle c x) (length c)) as [Hfull|Hnot].
+  - replace (Nat.min (Nat.pred (ssle c x)) (length c - 2)) with (length c - 2)%nat by lia.
+    replace (S (length c - 2)) with (length c - 1)%nat by lia.
+    split; [apply ssle_below; lia | exact Hhi].
+  - replace (Nat.min (Nat.pred (ssle c x)) (length c - 2)) with (Nat.pred (ssle c x)) by lia.
+    replace (S (Nat.pred (ssle c x))) with (ssle c x) by lia.
+    split; [apply ssle_below; lia | left; apply ssle_at; lia].
+Qed.
+
+Definition ref_lin (c : list R) (x : R) (G : nat -> R) : R :=
+  if Rltb x (nth 0 c 0) then (1 - (nth 0 c 0 - x) / (nth 1 c 0 - nth 0 c 0)) * G O
+  else if Rltb (nth (length c - 1) c 0) x then
+    (1 - (x - nth (length c - 1) c 0) / (nth (length c - 1) c 0 - nth (length c - 2) c 0)) * G (length c - 1)%nat
+  else
+    let i := ref_cell c x in
+    let t := (x - nth i c 0) / (nth (S i) c 0 - nth i c 0) in
+    (1 - t) * G i + t * G (S i).
+
+Fixpoint ref_eval (axes : list axis) (js : list nat) (G : list nat -> R) : R :=
+  match axes, js with
+  | t :: r, j :: js' =>
+      match a_s t with
+      | SNearest => ref_eval r js' (fun ix => G (j :: ix))
+      | SLinear => ref_lin (a_c t) (a_x t) (fun i => ref_eval r js' (fun ix => G (i :: ix)))
+      end
+  | _, _ => G []
+  end.
+
+Definition ref_ok (t : axis) (j : nat) : Prop :=
+  Asc (a_c t) /\
+  match a_s t with
+  | SNearest => closest (a_c t) (a_x t) j
+  | SLinear => (2 <= length (a_c t))%nat
+  end.
+
+Lemma blend_ref_lin (c : list R) x (G : nat -> R) : Asc c -> (2 <= length c)%nat ->
+  blend (length c) (axis_data SLinear c x) G = ref_lin c x G.
+Proof.
+  intros Ha Hn. unfold ref_lin.
+  destruct (Rltb_spec x (nth 0 c 0)) as [Hlo|Hlo]; [apply blend_linear_low; assumption|].
+  destruct (Rltb_spec (nth (length c - 1) c 0) x) as [Hhi|Hhi]; [apply blend_linear_high; assumption|].
+  destruct (ref_cell_contains c x Hn ltac:(lra)) as [Hi Hx].
+  apply (blend_linear_in c x G (ref_cell c x) Ha Hi Hx).
+Qed.
+
+Lemma tensor_eval_ref (axes : list axis) (js : list nat) (G : list nat -> R) :
+  Forall2 ref_ok axes js -> tensor_eval axes G = ref_eval axes js G.
+Proof.
+  intros HF. revert G. induction HF as [|t j r js' [Ha Hs] HF IH]; intros G; [reflexivity|].
+  cbn [tensor_eval ref_eval]. unfold axd_of. destruct (a_s t) eqn:Es.
+  - destruct Hs as [Hj Hc]. rewrite blend_nearest by (assumption || lia).
+    assert (Hnj : nearest_nat (a_c t) (a_x t) = j).
+    { apply closest_unique with (a_c t) (a_x t); [apply nearest_closest; [assumption|lia] | split; assumption]. }
+    rewrite Hnj. apply IH.
+  - rewrite blend_ref_lin by assumption. unfold ref_lin.
+    repeat match goal with |- context [if ?b then _ else _] => destruct b end; cbv zeta; rewrite !IH; reflexivity.
+Qed.
+
+Lemma peraxis_textbook_d (axes : list axis) (js : list nat) (G : list nat -> R) :
+  Forall2 ref_ok axes js ->
+  peraxis_point (map a_s axes) (map a_c axes) (wrapped (shape_of axes) G) (map a_x axes) = ref_eval axes js G.
+Proof. intros HF. rewrite peraxis_tensor. exact (tensor_eval_ref axes js G HF). Qed.
